@@ -21,6 +21,12 @@
 #include "upipe/udict.h"
 #include "upipe/uprobe_uref_mgr.h"
 #include "upipe/upipe_helper_upipe.h"
+#include "upipe/upipe_helper_urefcount.h"
+#include "upipe/upipe_helper_void.h"
+#include "upipe/upipe_helper_output.h"
+#include "upipe/upipe_helper_upump_mgr.h"
+#include "upipe/upipe_helper_upump.h"
+#include "upipe/uprobe_source_mgr.h"
 #include "upipe-modules/upipe_noclock.h"
 #include "upipe-modules/upipe_nodemux.h"
 #include "upipe-modules/upipe_multicat_probe.h"
@@ -55,6 +61,21 @@
 #include "upipe-modules/upipe_rtp_reorder.h"
 #include "upipe-modules/upipe_id3v2_decaps.h"
 #include "upipe-modules/upipe_id3v2_encaps.h"
+#include "upipe-modules/upipe_id3v2.h"
+#include "upipe-modules/upipe_rtp_pcm_pack.h"
+#include "upipe-modules/upipe_rtp_pcm_unpack.h"
+#include "upipe-modules/upipe_stream_switcher.h"
+#include "upipe-modules/upipe_auto_inner.h"
+#include "upipe-modules/upipe_rtp_demux.h"
+#include "upipe-modules/upipe_vanc_decoder.h"
+#include "upipe-modules/upipe_dtsdi.h"
+#include "upipe-modules/upipe_s337_encaps.h"
+#include "upipe-modules/upipe_graph.h"
+#include "upipe-modules/uref_graph.h"
+#include "upipe-modules/uref_graph_flow.h"
+#include "upipe-modules/upipe_auto_source.h"
+#include "upipe-modules/upipe_sequential_source.h"
+#include "upipe-modules/upipe_segment_source.h"
 #include <stdlib.h>
 #include <stdio.h>
 
@@ -191,6 +212,8 @@ struct ctx {
     int force_pool;
     uint32_t excluded;
     int cur_op_node; uint64_t cur_op_seq;   /* the input in progress */
+    struct upipe_mgr *shared_mgr;           /* sequential_source: the manager its peers are allocated from */
+    unsigned seen_flags;                   /* flags of every pipe the case ever had (sub-pipe slots are reused) */
 };
 static struct ctx ctx;
 
@@ -200,6 +223,7 @@ static struct ctx ctx;
 static const struct wtype table[];
 static const int ntypes;
 static const char *node_name(struct ctx *c, struct node *n);
+static bool node_alive(struct ctx *c, struct node *n);
 
 /* ---------------------------------------------------------------- pooled structures are poisoned while in a pool (C01) */
 #if PIPES_PROP == 1
@@ -356,6 +380,85 @@ static struct tap *tap_alloc(struct ctx *c, int id)
     upipe_throw_ready(&t->upipe);
     return t;
 }
+
+/* ---------------------------------------------------------------- stand-in source pipe for the source bins
+ * (auto_source, sequential_source, segment_source wrap a source manager that opens files or sockets; here the manager is
+ * this pipe: set_uri starts an idler pump that emits three 32-octet blocks and then announces the end of the source) */
+struct wsrc {
+    struct urefcount urefcount;
+    struct upipe *output; struct uref *flow_def; enum upipe_helper_output_state output_state; struct uchain request_list;
+    struct upump_mgr *upump_mgr; struct upump *upump;
+    unsigned left, output_size;
+    char uri[40];
+    struct upipe upipe;
+};
+#define WSRC_SIGNATURE UBASE_FOURCC('v','s','r','c')
+UPIPE_HELPER_UPIPE(wsrc, upipe, WSRC_SIGNATURE)
+UPIPE_HELPER_UREFCOUNT(wsrc, urefcount, wsrc_free)
+UPIPE_HELPER_VOID(wsrc)
+UPIPE_HELPER_OUTPUT(wsrc, output, flow_def, output_state, request_list)
+UPIPE_HELPER_UPUMP_MGR(wsrc, upump_mgr)
+UPIPE_HELPER_UPUMP(wsrc, upump, upump_mgr)
+static struct upipe *wsrc_alloc(struct upipe_mgr *mgr, struct uprobe *uprobe, uint32_t signature, va_list args)
+{
+    struct upipe *upipe = wsrc_alloc_void(mgr, uprobe, signature, args);
+    if (!upipe) return NULL;
+    struct wsrc *w = wsrc_from_upipe(upipe);
+    wsrc_init_urefcount(upipe); wsrc_init_output(upipe); wsrc_init_upump_mgr(upipe); wsrc_init_upump(upipe);
+    w->left = 0; w->output_size = 32; w->uri[0] = 0;
+    upipe_throw_ready(upipe);
+    return upipe;
+}
+static void wsrc_idler(struct upump *upump)
+{
+    struct upipe *upipe = upump_get_opaque(upump, struct upipe *);
+    struct wsrc *w = wsrc_from_upipe(upipe);
+    if (w->left == 0) { wsrc_set_upump(upipe, NULL); upipe_throw_source_end(upipe); return; }
+    w->left--;
+    struct uref *u = uref_block_alloc(&ctx.wmgr, ctx.pfx.fm.block_mgr, w->output_size ? w->output_size : 1);
+    if (u) wsrc_output(upipe, u, &w->upump);
+}
+static int wsrc_set_uri(struct upipe *upipe, const char *uri)
+{
+    struct wsrc *w = wsrc_from_upipe(upipe);
+    wsrc_set_upump(upipe, NULL);
+    w->left = 0; w->uri[0] = 0;
+    if (!uri) return UBASE_ERR_NONE;
+    if (strstr(uri, "bad")) return UBASE_ERR_EXTERNAL;                 /* cannot be opened */
+    snprintf(w->uri, sizeof w->uri, "%s", uri);
+    struct uref *fd = uref_block_flow_alloc_def(&ctx.wmgr, "stub.");
+    if (!fd) return UBASE_ERR_ALLOC;
+    wsrc_store_flow_def(upipe, fd);
+    wsrc_check_upump_mgr(upipe);
+    if (!w->upump_mgr) return UBASE_ERR_NONE;
+    struct upump *pump = upump_alloc_idler(w->upump_mgr, wsrc_idler, upipe, upipe->refcount);
+    if (!pump) return UBASE_ERR_UPUMP;
+    wsrc_set_upump(upipe, pump);
+    upump_start(pump);
+    w->left = 3;
+    return UBASE_ERR_NONE;
+}
+static int wsrc_control(struct upipe *upipe, int command, va_list args)
+{
+    struct wsrc *w = wsrc_from_upipe(upipe);
+    UBASE_HANDLED_RETURN(wsrc_control_output(upipe, command, args));
+    switch (command) {
+    case UPIPE_ATTACH_UPUMP_MGR: wsrc_set_upump(upipe, NULL); return wsrc_attach_upump_mgr(upipe);
+    case UPIPE_SET_URI: return wsrc_set_uri(upipe, va_arg(args, const char *));
+    case UPIPE_GET_URI: *va_arg(args, const char **) = w->uri[0] ? w->uri : NULL; return UBASE_ERR_NONE;
+    case UPIPE_SET_OUTPUT_SIZE: w->output_size = va_arg(args, unsigned int) % 300; return UBASE_ERR_NONE;
+    case UPIPE_GET_OUTPUT_SIZE: *va_arg(args, unsigned int *) = w->output_size; return UBASE_ERR_NONE;
+    default: return UBASE_ERR_UNHANDLED;
+    }
+}
+static void wsrc_free(struct upipe *upipe)
+{
+    upipe_throw_dead(upipe);
+    wsrc_clean_upump(upipe); wsrc_clean_upump_mgr(upipe); wsrc_clean_output(upipe); wsrc_clean_urefcount(upipe);
+    wsrc_free_void(upipe);
+}
+static struct upipe_mgr wsrc_mgr = { .refcount = NULL, .signature = WSRC_SIGNATURE, .upipe_alloc = wsrc_alloc, .upipe_control = wsrc_control };
+static struct upipe_mgr wsrc_mgr_b = { .refcount = NULL, .signature = WSRC_SIGNATURE, .upipe_alloc = wsrc_alloc, .upipe_control = wsrc_control };
 
 /* ---------------------------------------------------------------- formats, flow definitions, buffers */
 struct picfmt { const char *name; uint8_t mp; int np; struct { const char *chroma; uint8_t hsub, vsub, mps; } pl[3]; };
@@ -1036,6 +1139,296 @@ static struct uref *in_id3e_sub(struct ctx *c, struct node *n, struct inspec *s)
     return u;
 }
 
+/* ================================================================ second bank of types (indices 33..) */
+/* -- grid: inputs hold pictures / sound, outputs pick from the selected input at the date of a reference uref */
+static struct upipe *alloc_grid_in(struct ctx *c, struct node *n, struct uprobe *probe, int v, bool *must_fail)
+{ return upipe_grid_alloc_input(main_pipe(c), probe); }
+static struct upipe *alloc_grid_out(struct ctx *c, struct node *n, struct uprobe *probe, int v, bool *must_fail)
+{ return upipe_grid_alloc_output(main_pipe(c), probe); }
+static void ctl_grid(struct ctx *c, struct node *n, uint8_t sel, char *what, size_t wlen)
+{
+    static const uint64_t r[4] = { UCLOCK_FREQ, 0, TICK, 10 * (uint64_t)UCLOCK_FREQ };
+    if (sel & 1) { ctl_attach(c, n, sel >> 1, what, wlen); return; }
+    int e = upipe_grid_set_max_retention(n->upipe, r[(sel >> 1) % 4]); CTL("set_max_retention(%llu) -> %d", (unsigned long long)r[(sel >> 1) % 4], e);
+}
+static void ctl_grid_out(struct ctx *c, struct node *n, uint8_t sel, char *what, size_t wlen)
+{
+    struct upipe *in = NULL; int e;
+    switch (sel % 4) {
+    case 0: case 1: {
+        struct node *t = &c->n[N_SUB0 + (sel >> 2) % NSUB];
+        bool ok = node_alive(c, t) && t->held && t->sk == 0;      /* an input of this grid the caller holds */
+        e = upipe_grid_out_set_input(n->upipe, ok ? t->upipe : NULL);
+        CTL("out_set_input(%s) -> %d", ok ? node_name(c, t) : "NULL", e); break; }
+    case 2: e = upipe_grid_out_get_input(n->upipe, &in); CTL("out_get_input -> %d", e); break;
+    default: { int k = 0; upipe_grid_out_foreach_input(n->upipe, in) k++; CTL("out_iterate_input -> %d inputs", k); break; }
+    }
+}
+/* -- rtp_pcm_pack / unpack */
+static struct uref *def_pcm_pack(struct ctx *c, struct node *n, int v)
+{
+    if (v == 3) return def_sound_fmt(c, SF_F32PL2);
+    return def_sound(c, n, v);
+}
+static void ctl_pcm_pack(struct ctx *c, struct node *n, uint8_t sel, char *what, size_t wlen)
+{
+    static const char *const opt[4] = { "output-samples", "output-time", "bogus", NULL };
+    /* nothing below 48 samples per packet: one 1920-sample buffer would come out as hundreds of packets and flood the fixture's logs */
+    static const char *const val[6] = { "48", "0", "1000", "abc", "-5", NULL };
+    const char *o = opt[sel % 4], *v = val[(sel >> 2) % 6];
+    if (sel % 4 == 1 && (sel >> 2) % 6 == 0) v = "20000";
+    int e = upipe_set_option(n->upipe, o, v);
+    CTL("set_option(%s, %s) -> %d", o ? o : "NULL", v ? v : "NULL", e);
+}
+static struct uref *def_pcm_unpack(struct ctx *c, struct node *n, int v)
+{
+    if (v == 3) return def_block(c, "foo.", 0);
+    struct uref *u = def_block(c, "s24be.sound.", v);
+    if (!u) return NULL;
+    uref_sound_flow_set_rate(u, 48000);
+    uref_sound_flow_set_channels(u, v == 1 ? 1 : 2);
+    return u;
+}
+/* -- stream_switcher: inputs need original dates */
+static struct uref *in_switcher(struct ctx *c, struct node *n, struct inspec *s)
+{
+    struct uref *u = in_block(c, n, s);
+    if (!u) return NULL;
+    uint64_t t = 0;
+    if ((s->fl & 15) != 6 && ubase_check(uref_clock_get_cr_prog(u, &t))) uref_clock_set_cr_orig(u, t);
+    return u;
+}
+static void ctl_switcher_sub(struct ctx *c, struct node *n, uint8_t sel, char *what, size_t wlen)
+{
+    static const unsigned ml[4] = { 0, 1, 8, 255 };
+    if (sel & 1) { unsigned m = 0; int e = upipe_get_max_length(n->upipe, &m); CTL("get_max_length -> %d (%u)", e, m); }
+    else { int e = upipe_set_max_length(n->upipe, ml[(sel >> 1) % 4]); CTL("set_max_length(%u) -> %d", ml[(sel >> 1) % 4], e); }
+}
+/* -- auto_inner: a bin that picks the first inner manager accepting the definition */
+static struct upipe *alloc_autoin(struct ctx *c, struct node *n, struct uprobe *probe, int v, bool *must_fail)
+{
+    struct upipe_mgr *mgr = upipe_autoin_mgr_alloc();
+    if (!mgr) return NULL;
+    upipe_autoin_mgr_add_mgr(mgr, "mpeg4", upipe_rtp_mpeg4_mgr_alloc());
+    upipe_autoin_mgr_add_mgr(mgr, "crop", upipe_crop_mgr_alloc());
+    if (v != 1) upipe_autoin_mgr_add_mgr(mgr, "any", upipe_noclock_mgr_alloc());
+    upipe_autoin_mgr_add_mgr(mgr, NULL, NULL);                       /* invalid: refused */
+    upipe_autoin_mgr_add_mgr(mgr, "again", upipe_crop_mgr_alloc());  /* already there */
+    if (v == 2) upipe_autoin_mgr_del_mgr(mgr, upipe_crop_mgr_alloc());
+    struct uref *fd = def_block(c, "whatever.", 0);
+    struct upipe *p = v == 3 ? upipe_void_alloc(mgr, probe) : upipe_flow_alloc(mgr, probe, fd);
+    uref_free(fd);
+    upipe_mgr_release(mgr);
+    return p;
+}
+static struct uref *def_autoin(struct ctx *c, struct node *n, int v)
+{
+    /* every attempt allocates up to three inner pipes on the same probe: two definitions per case fit the fixture's track table */
+    if (n->name >= 2) return NULL;
+    n->name++;
+    if (v == 3 && n->kind == K_BLOCK) return def_block(c, "aac.sound.", 0);     /* picks the first inner manager */
+    return def_generic(c, n, v == 3 ? 1 : v);
+}
+/* -- rtp_demux: a refcounted manager; each sub-pipe is a bin rtp_decaps -> idem */
+static struct upipe *alloc_rtp_demux(struct ctx *c, struct node *n, struct uprobe *probe, int v, bool *must_fail)
+{
+    struct upipe_mgr *mgr = upipe_rtp_demux_mgr_alloc();
+    if (!mgr) return NULL;
+    struct upipe *p = upipe_void_alloc(mgr, probe);
+    upipe_mgr_release(mgr);
+    return p;
+}
+/* -- vanc_decoder: bit-packed ancillary packets */
+struct bitw { uint8_t *b; int pos; };
+static void bw_put(struct bitw *w, unsigned v, int nb) { for (int i = nb - 1; i >= 0; i--) { if ((v >> i) & 1) w->b[w->pos >> 3] |= 0x80 >> (w->pos & 7); w->pos++; } }
+static unsigned par10(unsigned v) { unsigned p = __builtin_parity(v & 0xff); return (v & 0xff) | (p << 8) | ((!p) << 9); }
+static struct uref *def_vanc(struct ctx *c, struct node *n, int v)
+{
+    if (v == 3) return def_block(c, "foo.", 0);
+    return def_block(c, "vanc.pic.", v);
+}
+static struct uref *in_vanc(struct ctx *c, struct node *n, struct inspec *s)
+{
+    static uint8_t b[256];
+    memset(b, 0, sizeof b);
+    struct bitw w = { b, 0 };
+    int shape = s->sz % 8, npk = 1 + (s->sz >> 3) % 2;
+    if (shape == 6) { w.pos = 8 * 5; }                              /* shorter than a packet header */
+    else for (int k = 0; k < npk; k++) {
+        unsigned dc = (unsigned[]){ 2, 0, 5, 9 }[(s->sz >> 4) % 4];
+        bw_put(&w, shape == 5 ? 1 : 0, 6);
+        bw_put(&w, (s->fl >> 4) & 1, 1);
+        bw_put(&w, shape == 4 ? 0 : 9 + k, 11);
+        bw_put(&w, 12, 12);
+        uint16_t words[16]; int nw = 0;
+        words[nw++] = par10(0x61); words[nw++] = par10(0x01 + k); words[nw++] = par10(shape == 3 ? 200 : dc);
+        for (unsigned i = 0; i < dc; i++) words[nw++] = par10(pfx_pattern(s->seq, i));
+        unsigned cs = 0; for (int i = 0; i < nw; i++) cs += words[i] & 0x1ff;
+        cs &= 0x1ff; cs |= (~cs & 0x100) << 1;
+        if (shape == 2) cs ^= 1;                                    /* wrong checksum */
+        for (int i = 0; i < nw; i++) bw_put(&w, words[i], 10);
+        bw_put(&w, cs, 10);
+        /* alignment to the next octet: ones (the format), or zeros when the tape says so */
+        while (w.pos & 7) bw_put(&w, shape == 1 ? 0 : 1, 1);
+    }
+    struct uref *u = blk_from_bytes(c, b, (w.pos + 7) / 8, 1, s->seq);
+    if (u) stamp(c, n, u, s, 0);
+    return u;
+}
+/* -- dtsdi: a 16-octet file header, then SDI frames of 1 801 800 octets (525i, the smallest) in quarters */
+#define DTSDI_FRAME (2 * 2 * 525 * 858)
+static struct uref *in_dtsdi(struct ctx *c, struct node *n, struct inspec *s)
+{
+    static uint8_t *big;
+    if (!big) { hc_pause(1); big = malloc(DTSDI_FRAME / 4 + 64); hc_pause(-1); if (!big) return NULL; }
+    int shape = s->sz % 8, size;
+    if (n->vpos == 0 || shape == 7) {                       /* (re)start: header, valid or not */
+        memset(big, 0, 64);
+        memcpy(big, "DekTec.dtsdi", 12);
+        big[12] = (s->sz >> 3) & 1; big[13] = (s->sz & 0x20) ? 0x7f : 0x02; big[14] = 0x01; big[15] = 0x01;
+        if ((s->sz & 0xc0) == 0xc0) big[0] = 'X';
+        int hs = 16 + 8 * big[12];
+        memset(big + hs, pfx_pattern(s->seq, 0), DTSDI_FRAME / 4);
+        size = hs + DTSDI_FRAME / 4;
+        n->vpos = 1;
+    } else if (shape == 6) { memset(big, 0x11, 64); size = 64; }
+    else { memset(big, pfx_pattern(s->seq, 1), DTSDI_FRAME / 4); size = DTSDI_FRAME / 4; }
+    struct uref *u = blk_from_bytes(c, big, size, 1, s->seq);
+    if (u) stamp(c, n, u, s, 0);
+    return u;
+}
+static void ctl_dtsdi(struct ctx *c, struct node *n, uint8_t sel, char *what, size_t wlen)
+{
+    unsigned v = 0;
+    if (sel & 1) { int e = upipe_get_output_size(n->upipe, &v); CTL("get_output_size -> %d (%u)", e, v); }
+    else { int e = upipe_set_output_size(n->upipe, (sel >> 1) * 1000); CTL("set_output_size(%u) -> %d", (sel >> 1) * 1000, e); }
+}
+/* -- s337_encaps */
+static struct uref *def_s337(struct ctx *c, struct node *n, int v)
+{
+    if (v == 3) return def_block(c, "ac3.sound.", 0);      /* no rate: refused */
+    struct uref *u = def_block(c, v == 1 ? "ac3.sound.x." : "ac3.sound.", v);
+    if (u) uref_sound_flow_set_rate(u, 48000);
+    return u;
+}
+/* -- graph */
+static struct upipe *alloc_graph_sub(struct ctx *c, struct node *n, struct uprobe *probe, int v, bool *must_fail)
+{
+    struct uref *fd = uref_alloc_control(UM(c));
+    if (!fd) return NULL;
+    uref_flow_set_def(fd, v == 3 ? "block.foo." : UREF_GRAPH_FLOW_DEF);
+    uref_graph_flow_set_name(fd, "g");
+    if (v == 1) { uref_graph_flow_set_color(fd, "rgb(255, 0, 0)"); uref_graph_flow_set_filled(fd); uref_graph_flow_set_stacked(fd); }
+    if (v == 2) { uref_graph_flow_set_color(fd, "not a colour"); uref_graph_flow_set_interpolated(fd); }
+    *must_fail = v == 3;
+    struct upipe *p = upipe_flow_alloc_sub(main_pipe(c), probe, fd);
+    uref_free(fd);
+    return p;
+}
+static struct uref *def_graph_sub(struct ctx *c, struct node *n, int v)
+{
+    struct uref *u = uref_alloc_control(UM(c));
+    if (u) uref_flow_set_def(u, v == 3 ? "block.foo." : UREF_GRAPH_FLOW_DEF);
+    extra(u, v);
+    return u;
+}
+static struct uref *in_graph_sub(struct ctx *c, struct node *n, struct inspec *s)
+{
+    struct uref *u = in_void(c, n, s);
+    if (u && s->sz % 4 != 3) uref_graph_set_value(u, (int64_t)(s->sz % 16) * 7 - 30);
+    return u;
+}
+static void ctl_graph(struct ctx *c, struct node *n, uint8_t sel, char *what, size_t wlen)
+{
+    static const int64_t lim[4] = { 0, 100, -50, 7 };
+    static const char *const col[3] = { "rgb(0, 128, 255)", "rgba(1, 2, 3, 4)", "blue?" };
+    int e;
+    switch (sel % 4) {
+    case 0: e = upipe_graph_set_minimum(n->upipe, lim[(sel >> 2) % 4]); CTL("set_minimum(%lld) -> %d", (long long)lim[(sel >> 2) % 4], e); break;
+    case 1: e = upipe_graph_set_maximum(n->upipe, lim[(sel >> 2) % 4]); CTL("set_maximum(%lld) -> %d", (long long)lim[(sel >> 2) % 4], e); break;
+    case 2: e = upipe_graph_set_color(n->upipe, col[(sel >> 2) % 3]); CTL("set_color(%s) -> %d", col[(sel >> 2) % 3], e); break;
+    default: {
+        uint64_t h = (uint64_t[]){ 4, 60, 1, 300 }[(sel >> 2) % 4];
+        e = upipe_graph_set_history(n->upipe, h); CTL("set_history(%llu) -> %d", (unsigned long long)h, e); break; }
+    }
+}
+static void ctl_graph_sub(struct ctx *c, struct node *n, uint8_t sel, char *what, size_t wlen)
+{
+    static const char *const col[3] = { "rgb(9, 9, 9)", "rgba(1, 2, 3, 4)", "" };
+    if (sel & 1) { int e = upipe_graph_sub_set_value(n->upipe, (int64_t)(sel >> 1) - 40); CTL("sub_set_value(%d) -> %d", (sel >> 1) - 40, e); }
+    else { int e = upipe_graph_sub_set_color(n->upipe, col[(sel >> 1) % 3]); CTL("sub_set_color(%s) -> %d", col[(sel >> 1) % 3], e); }
+}
+/* -- id3v2 (bin around id3v2_decaps): tags with PRIV frames */
+static struct uref *in_id3bin(struct ctx *c, struct node *n, struct inspec *s)
+{
+    if (s->sz % 4 != 1) return in_id3d(c, n, s);
+    static uint8_t b[256];
+    static const char apple[] = "com.apple.streaming.transportStreamTimestamp";
+    const char *owner = (s->sz & 0x10) ? "x.other" : apple;
+    int ol = strlen(owner) + 1, dl = 8, body = 10 + ol + dl + ((s->sz & 0x20) ? 6 : 0);
+    memset(b, 0, sizeof b);
+    put_id3(b, body, 0, s->seq, false);
+    uint8_t *f = b + 10;
+    memcpy(f, "PRIV", 4); f[7] = ol + dl;
+    memcpy(f + 10, owner, ol);
+    for (int i = 0; i < dl; i++) f[10 + ol + i] = i + 1;
+    if (s->sz & 0x40) { f[10 + ol - 1] = 'y'; for (int i = 0; i < dl; i++) f[10 + ol + i] = 'z'; }     /* owner not terminated inside the frame */
+    memset(f + 10 + ol + dl, 0, body - (10 + ol + dl));                                            /* padding */
+    int pos = 10 + body;
+    memset(b + pos, 0x2e, 9); pos += 9;
+    struct uref *u = blk_from_bytes(c, b, pos, 1 + (s->sz >> 7), s->seq);
+    if (u) stamp(c, n, u, s, 0);
+    return u;
+}
+
+/* -- source bins over the stand-in source */
+static const char *const uris[8] = { "stub://a", "alt://b", "stub://c", "nosuch://x", "plain-path", "stub://bad", "alt://d", "stub://e" };
+static struct upipe *alloc_auto_src(struct ctx *c, struct node *n, struct uprobe *probe, int v, bool *must_fail)
+{
+    struct upipe_mgr *mgr = upipe_auto_src_mgr_alloc(), *got = NULL;
+    if (!mgr) return NULL;
+    upipe_auto_src_mgr_set_mgr(mgr, "stub", &wsrc_mgr);
+    upipe_auto_src_mgr_set_mgr(mgr, "alt", &wsrc_mgr_b);
+    upipe_auto_src_mgr_set_mgr(mgr, "alt", &wsrc_mgr_b);       /* replaces the entry */
+    upipe_auto_src_mgr_set_mgr(mgr, NULL, &wsrc_mgr);          /* invalid: refused */
+    upipe_auto_src_mgr_get_mgr(mgr, "stub", &got);
+    upipe_auto_src_mgr_get_mgr(mgr, "nosuch", &got);
+    struct upipe *p = upipe_void_alloc(mgr, probe);
+    upipe_mgr_release(mgr);
+    return p;
+}
+static void ctl_src_bin(struct ctx *c, struct node *n, uint8_t sel, char *what, size_t wlen)
+{
+    const char *u = NULL; unsigned sz = 0; uint64_t v = 0; int e;
+    int limit = !strncmp(n->sp->name, "segment", 7) ? 2 : 5;         /* every new inner pipe takes a slot of the probe's track table */
+    switch (sel % 8) {
+    case 0: case 1: case 2:
+        if (n->name >= limit) { e = upipe_get_uri(n->upipe, &u); CTL("get_uri -> %d", e); break; }
+        n->name++;
+        u = (sel % 8 == 2 && (sel & 0x80)) ? NULL : uris[(sel >> 3) % 8];
+        e = upipe_set_uri(n->upipe, u); CTL("set_uri(%s) -> %d", u ? u : "NULL", e); break;
+    case 3: e = upipe_get_uri(n->upipe, &u); CTL("get_uri -> %d (%s)", e, u ? u : "null"); break;
+    case 4: if (!strncmp(n->sp->name, "segment", 7) && n->name >= limit) { e = upipe_get_output_size(n->upipe, &sz); CTL("get_output_size -> %d", e); break; }
+            if (!strncmp(n->sp->name, "segment", 7)) n->name++;
+            e = upipe_set_output_size(n->upipe, (sel >> 3) * 9); CTL("set_output_size(%u) -> %d", (sel >> 3) * 9, e); break;
+    case 5: e = upipe_get_output_size(n->upipe, &sz); CTL("get_output_size -> %d (%u)", e, sz); break;
+    case 6: if (!strncmp(n->sp->name, "segment", 7) && n->name >= limit) { ctl_attach(c, n, 1, what, wlen); break; }
+            if (!strncmp(n->sp->name, "segment", 7)) n->name++;
+            e = upipe_src_get_size(n->upipe, &v); CTL("src_get_size -> %d", e); break;
+    default: ctl_attach(c, n, sel >> 3, what, wlen); break;
+    }
+}
+static struct upipe_mgr *seq_mgr(struct ctx *c)
+{
+    if (!c->shared_mgr) { c->shared_mgr = upipe_seq_src_mgr_alloc(); if (c->shared_mgr) upipe_seq_src_mgr_set_source_mgr(c->shared_mgr, &wsrc_mgr); }
+    return c->shared_mgr;
+}
+static struct upipe *alloc_seq_src(struct ctx *c, struct node *n, struct uprobe *probe, int v, bool *must_fail)
+{
+    struct upipe_mgr *mgr = seq_mgr(c);
+    return mgr ? upipe_void_alloc(mgr, probe) : NULL;
+}
+
 /* ---------------------------------------------------------------- the table */
 #define KM(a) (1u << (a))
 static const struct wtype table[] = {
@@ -1083,14 +1476,34 @@ static const struct wtype table[] = {
     { upipe_id3v2d_mgr_alloc,         { "id3v2_decaps", NULL, true, true, true, K_BLOCK, F_HOLD | F_MULTI | F_ATTRMIX, NULL, in_id3d }, 0 },
     /* index 32: reached through type 31 with bit 7 of the shape byte (type decoding and the C05 classes have 32 slots) */
     { upipe_id3v2e_mgr_alloc,         { "id3v2_encaps", NULL, true, true, true, K_BLOCK, F_ORDER | F_ATTRMIX }, 1,
-                                      { { "id3v2_encaps.sub", NULL, true, false, false, K_BLOCK, F_HOLD, NULL, in_id3e_sub } } },
+                                      { { "id3v2_encaps.sub", NULL, true, false, false, K_BLOCK, F_HOLD, NULL, in_id3e_sub } } },    /* ---- second bank (selected when the two top bits of the configuration byte are set): index 33 + ((type byte * 11) & 15) ---- */
+    { upipe_grid_mgr_alloc,           { "grid", NULL, false, false, false, K_NONE, F_UCLOCK, NULL, NULL, ctl_grid }, 2,
+                                      { { "grid.in", alloc_grid_in, true, false, true, K_ANY, F_HOLD | F_PUMP, NULL, NULL, ctl_attach, 0, KM(K_PIC) | KM(K_SOUND) },
+                                        { "grid.out", alloc_grid_out, true, true, true, K_VOID, F_ATTRMIX | F_MULTI, NULL, NULL, ctl_grid_out } } },
+    { upipe_rtp_pcm_pack_mgr_alloc,   { "rtp_pcm_pack", NULL, true, true, true, K_SOUND, F_HOLD | F_SELFHOLD | F_MULTI | F_ATTRMIX, def_pcm_pack, NULL, ctl_pcm_pack }, 0 },
+    { upipe_rtp_pcm_unpack_mgr_alloc, { "rtp_pcm_unpack", NULL, true, true, true, K_BLOCK, F_HOLD | F_SELFHOLD | F_ORDER, def_pcm_unpack }, 0 },
+    { upipe_stream_switcher_mgr_alloc,{ "stream_switcher", NULL, false, true, true, K_NONE, 0 }, 1,
+                                      { { "stream_switcher.sub", NULL, true, false, false, K_BLOCK, F_HOLD, NULL, in_switcher, ctl_switcher_sub } } },
+    { NULL,                           { "auto_inner", alloc_autoin, true, true, true, K_ANY, F_ORDER, def_autoin }, 0 },
+    { NULL,                           { "rtp_demux", alloc_rtp_demux, false, false, false, K_NONE, 0 }, 1,
+                                      { { "rtp_demux.sub", NULL, true, true, true, K_BLOCK, F_HOLD | F_MULTI, def_rtpd, in_rtp } } },
+    { upipe_id3v2_mgr_alloc,          { "id3v2", NULL, true, true, true, K_BLOCK, F_HOLD | F_MULTI | F_ATTRMIX, NULL, in_id3bin }, 0 },
+    { upipe_vancd_mgr_alloc,          { "vanc_decoder", NULL, true, true, true, K_BLOCK, F_MULTI, def_vanc, in_vanc }, 0 },
+    { upipe_dtsdi_mgr_alloc,          { "dtsdi", NULL, true, true, true, K_BLOCK, F_HOLD | F_ORDER, NULL, in_dtsdi, ctl_dtsdi }, 0 },
+    { upipe_s337_encaps_mgr_alloc,    { "s337_encaps", NULL, true, true, true, K_BLOCK, F_ONE2ONE | F_ORDER | F_SELFHOLD, def_s337 }, 0 },
+    { upipe_graph_mgr_alloc,          { "graph", NULL, true, true, true, K_PIC, F_ONE2ONE | F_ORDER, NULL, NULL, ctl_graph }, 1,
+                                      { { "graph.sub", alloc_graph_sub, true, false, false, K_VOID, F_NOSEQ, def_graph_sub, in_graph_sub, ctl_graph_sub } } },    { NULL,                           { "auto_source", alloc_auto_src, false, true, true, K_NONE, F_SOURCE | F_PUMP, NULL, NULL, ctl_src_bin }, 0 },
+    { NULL,                           { "sequential_source", alloc_seq_src, false, true, true, K_NONE, F_SOURCE | F_PUMP, NULL, NULL, ctl_src_bin }, 1,
+                                      { { "sequential_source.peer", alloc_seq_src, false, true, true, K_NONE, F_SOURCE | F_PUMP, NULL, NULL, ctl_src_bin } } },
+    { upipe_seg_src_mgr_alloc,        { "segment_source", NULL, false, true, true, K_NONE, F_SOURCE | F_PUMP | F_HOLD, NULL, NULL, ctl_src_bin }, 0 },
 };
+#define BANK1 33
 
 static const int ntypes = sizeof(table) / sizeof(table[0]);
 enum { T_NOCLOCK = 0, T_NODEMUX, T_MULTICAT_PROBE, T_DEJITTER };   /* the first four are also used as head / tail pipes */
 
 /* ---------------------------------------------------------------- statistics (WIDE_STATS=<file>: one line per process at exit) */
-static struct { unsigned long cases, data, inputs, delivered; } stats[40];
+static struct { unsigned long cases, data, inputs, delivered; } stats[64];
 static bool stats_hooked;
 static void stats_dump(void)
 {
@@ -1116,7 +1529,7 @@ static int default_sfmt(const struct nspec *sp)
     if (!strcmp(sp->name, "audio_split")) return SF_S16P2;
     if (!strcmp(sp->name, "audio_merge.sub")) return SF_S16PL1;
     if (!strncmp(sp->name, "audiocont", 9)) return SF_F32PL2;
-    if (!strcmp(sp->name, "sync.sub")) return SF_S32P2;
+    if (!strcmp(sp->name, "sync.sub") || !strcmp(sp->name, "rtp_pcm_pack")) return SF_S32P2;
     return SF_S16PL2;
 }
 
@@ -1127,6 +1540,7 @@ static void node_setup(struct ctx *c, int idx, int type, int sk, int kind_hint, 
     n->used = true; n->idx = idx; n->type = type; n->sk = sk;
     n->sp = sk < 0 ? &table[type].main : &table[type].sub[sk];
     n->out = -1; n->probe = -1;
+    c->seen_flags |= n->sp->flags;
     n->kind = n->sp->in_kind;
     if (n->kind == K_ANY) {
         unsigned km = n->sp->kinds ? n->sp->kinds : 15;
@@ -1136,6 +1550,7 @@ static void node_setup(struct ctx *c, int idx, int type, int sk, int kind_hint, 
     }
     n->fmt = n->kind == K_SOUND ? default_sfmt(n->sp) : (fmt_hint & 1);
     if (!strcmp(n->sp->name, "ntsc_prepend")) n->fmt = 0;
+    if (!strcmp(n->sp->name, "graph")) n->fmt = 1;                 /* planar YUV is all it draws on */
     if (!strcmp(n->sp->name, "audio_blank") || !strcmp(n->sp->name, "blank_source")) { if (n->kind != K_SOUND) n->fmt = SF_S16PL2; }
 }
 
@@ -1211,8 +1626,9 @@ static void check_events(struct ctx *c, const char *after)
 
 static unsigned case_flags(struct ctx *c)
 {
-    unsigned f = 0;
+    unsigned f = c->seen_flags;
     for (int i = 0; i < NNODE; i++) if (c->n[i].used && c->n[i].sp) f |= c->n[i].sp->flags;
+    c->seen_flags = f;
     return f;
 }
 
@@ -1322,6 +1738,7 @@ static bool do_set_flow_def(struct ctx *c, struct node *n, int v, const char *wh
     if (ubase_check(err)) {
         if (n->has_def && n->defv != v && n->fed) c->classes |= 1u << CL_FLOWDEF_CHANGE;
         n->has_def = true; n->defv = v;
+        if (!strcmp(n->sp->name, "dtsdi")) n->vpos = 0;               /* the pipe expects a file header again */
         if (n->kind == K_PIC) { vsize(v, &n->w, &n->h); if (!strcmp(n->sp->name, "blit.sub")) { n->w = 16; n->h = 8; } }
     }
     end_op(c, what);
@@ -1494,7 +1911,7 @@ static void do_sub(struct ctx *c, uint8_t k, uint8_t sel)
     int sk = (sel >> 6) % wt->nsub;
     /* variant: mostly the valid ones */
     int variant = (sel & 7) < 5 ? 0 : (sel & 7) - 4;
-    node_setup(c, N_SUB0 + k, m->type, sk, m->kind, m->fmt);
+    node_setup(c, N_SUB0 + k, m->type, sk, m->kind == K_NONE ? (sel >> 3) : m->kind, m->fmt);
     char what[64];
     snprintf(what, sizeof what, "alloc_sub(%s)", n->sp->name);
     if (node_alloc(c, n, n->sp->alloc ? variant : 0)) {
@@ -1572,12 +1989,8 @@ static void op_ctl(struct ctx *c)
 }
 
 /* ---------------------------------------------------------------- main */
-#if PIPES_PROP == 5
 static const char *class_names[33];
 static char class_name_buf[32][48];
-#else
-#define class_names class_names_gen
-#endif
 
 static int run_once(const uint8_t *tp_, size_t len, struct vp_report *rep, unsigned flags, int force_pool)
 {
@@ -1588,21 +2001,26 @@ static int run_once(const uint8_t *tp_, size_t len, struct vp_report *rep, unsig
     if (!stats_hooked) { stats_hooked = true; atexit(stats_dump); }
 
     uint8_t cfgb = tp_u8(&c->t);
+    { static int force = -1; if (force < 0) force = getenv("WIDE_BANK1") != NULL; if (force) cfgb |= 0xc0; }    /* debugging aid: second bank only */
     struct pfx_cfg cfg = { .pool_depth = force_pool >= 0 ? force_pool : (int[]){ 0, 1, 4 }[cfgb % 3], .prepend = (cfgb / 3) % 2 ? 8 : 0, .append = 0, .align = (cfgb / 6) % 2 ? 16 : 0,
                            .with_uref_mgr = false, .with_ubuf_mem = true, .with_upump_mgr = true, .with_uclock = true };
     if (pfx_init(&c->pfx, &cfg) != 0) return vp_internal(rep, "pfx_init");
     wmgr_init(c);
     /* every uref of the case, also those the pipes allocate themselves, comes from the tracking manager */
     c->pfx.services = uprobe_uref_mgr_alloc(c->pfx.services, &c->wmgr);
+    c->pfx.services = uprobe_source_mgr_alloc(c->pfx.services, &wsrc_mgr);      /* answers need_source_mgr (segment_source) */
     if (cfg.pool_depth) c->classes |= 1u << CL_POOL;
     c->hash = vp_hash_mix(c->hash, cfgb);
     for (int i = 0; i < NTAP; i++) for (int k = 0; k < NNODE; k++) last_seq[i][k] = UINT64_MAX;
     fake_upump_sleep(c->pfx.loop, 10 * TICK);      /* the clock does not start at zero */
 
-    int type = (tp_u8(&c->t) * 11) & 31;                  /* stable decoding: adding a type at the end of the table does not change existing tapes */
-    if (type >= ntypes) type %= ntypes;
+    uint8_t typeb = tp_u8(&c->t);
+    int type = (typeb * 11) & 31;                  /* stable decoding: adding a type at the end of the table does not change existing tapes */
+    if (type >= BANK1) type %= BANK1;
     uint8_t shape = tp_u8(&c->t), hint = tp_u8(&c->t);
     if (type == 31 && (shape & 0x80)) type = 32;
+    /* second bank: configuration bytes c0..ff (the configuration itself is decoded from the whole byte as before) */
+    if ((cfgb >> 6) == 3) { type = (typeb * 11) & 15; if (type >= ntypes - BANK1) type %= ntypes - BANK1; type += BANK1; }
     R(PID " wide: pool_depth=%d prepend=%d align=%d type=%s\n", cfg.pool_depth, cfg.prepend, cfg.align, table[type].main.name);
     c->hash = vp_hash_mix(vp_hash_mix(c->hash, type), shape * 256 + hint);
     stats[type].cases++;
@@ -1673,6 +2091,7 @@ static int run_once(const uint8_t *tp_, size_t len, struct vp_report *rep, unsig
     if (!c->ret) end_op(c, "final release");
     /* pipes that only die from the event loop get their chance */
     for (int i = 0; i < 8 && fake_upump_step(c->pfx.loop, 0); i++) ;
+    if (c->shared_mgr) { upipe_mgr_release(c->shared_mgr); c->shared_mgr = NULL; }
     for (int i = 0; i < NTAP; i++) if (c->tap[i]) upipe_release(&c->tap[i]->upipe);
     if (!c->ret) end_op(c, "final release");
     for (int i = 0; i < c->pfx.nprobes && !c->ret; i++) {
@@ -1708,6 +2127,9 @@ static int run_once(const uint8_t *tp_, size_t len, struct vp_report *rep, unsig
     if (c->delivered_main) stats[type].data++;
     rep->case_hash = c->hash;
     rep->excluded += c->excluded;
+#if PIPES_PROP != 5
+    if (c->delivered_main && type >= BANK1 && CL_NCLASSES + type - BANK1 < 32) c->classes |= 1u << (CL_NCLASSES + type - BANK1);
+#endif
 #if PIPES_PROP == 1
     rep->classes |= c->classes;
     rep->nontrivial = (c->classes & ((1u << CL_SWAP_AFTER_DATA) | (1u << CL_RELEASE_MID) | (1u << CL_SUBCHURN))) && c->any_data;
@@ -1715,7 +2137,7 @@ static int run_once(const uint8_t *tp_, size_t len, struct vp_report *rep, unsig
     rep->classes |= c->classes;
     rep->nontrivial = (c->classes & ((1u << CL_SWAP_AFTER_DATA) | (1u << CL_FLOWDEF_CHANGE) | (1u << CL_REJECT))) && (c->classes & (1u << CL_DELIVERED));
 #else
-    if (c->delivered_main) rep->classes |= 1u << (type > 31 ? 31 : type);
+    if (c->delivered_main && type < BANK1) rep->classes |= 1u << (type > 31 ? 31 : type);     /* the second bank has its classes in C01 / C04 */
     rep->nontrivial = c->delivered >= 4 && c->delivered_main;
 #endif
     return c->ret;
@@ -1740,11 +2162,15 @@ static int run(const uint8_t *tape, size_t len, struct vp_report *rep, unsigned 
 #endif
 }
 
-#if PIPES_PROP == 5
 __attribute__((constructor)) static void init_class_names(void)
 {
-    for (int i = 0; i < ntypes && i < 32; i++) { snprintf(class_name_buf[i], sizeof class_name_buf[i], "%s_delivered_data", i == 31 ? "id3v2_decaps_or_encaps" : table[i].main.name); class_names[i] = class_name_buf[i]; }
-}
+#if PIPES_PROP == 5
+    for (int i = 0; i < BANK1 && i < 32; i++) { snprintf(class_name_buf[i], sizeof class_name_buf[i], "%s_delivered_data", i == 31 ? "id3v2_decaps_or_encaps" : table[i].main.name); class_names[i] = class_name_buf[i]; }
+#else
+    int i;
+    for (i = 0; i < CL_NCLASSES; i++) class_names[i] = class_names_gen[i];
+    for (int k = BANK1; k < ntypes && i < 32; k++, i++) { snprintf(class_name_buf[i], sizeof class_name_buf[i], "%s_delivered_data", table[k].main.name); class_names[i] = class_name_buf[i]; }
 #endif
+}
 
 const struct vp_executor vp_executor = { PID, "wide", 160, class_names, run, NULL };
